@@ -29,14 +29,16 @@ func cmdObls(args []string) {
 	type row struct {
 		Name       string `json:"name"`
 		Discharged bool   `json:"discharged"`
-		Verdict    string `json:"verdict"`
+		Verdict    string  `json:"verdict"`
+		Solver     string  `json:"solver"`
+		TimeS      float64 `json:"time_s"`
 	}
 	var rows []row
 	for _, e := range res.Errors {
-		rows = append(rows, row{"machinery-error: " + e, false, "error"})
+		rows = append(rows, row{"machinery-error: " + e, false, "error", "", 0})
 	}
 	for _, o := range res.Obls {
-		rows = append(rows, row{o.Name, o.Discharged(), o.Result.Verdict})
+		rows = append(rows, row{o.Name, o.Discharged(), o.Result.Verdict, o.Result.Solver, o.Result.TimeS})
 	}
 	data, _ := json.Marshal(rows)
 	fmt.Println(string(data))
